@@ -83,8 +83,9 @@ def _run_harness(pf, cases_path, prefix, shards, extra):
 def _route_rejected(ctx, verdict, logname, hexes):
     """Rejected records, each with the deviations the spec says explain it: route to known finding / violation."""
     if verdict["shape"]:
-        ctx.violation("outcome log %s does not have the shape ParseSup allows; first: %s" % (logname, json.dumps(verdict["shape"][:2])),
-                      {"kind": "c03-log-shape", "log": logname, "records": verdict["shape"]})
+        # The shape of the log (sequence numbers, worker generations, who wrote a record) is produced by the harness's own
+        # supervisor, not by the code under test: a break is a defect of the tooling and says nothing about the property.
+        SHAPE_PROBLEMS.append("outcome log %s does not have the shape ParseSup allows; first: %s" % (logname, json.dumps(verdict["shape"][:2])))
     groups = {}
     for x in verdict["rejected"]:
         rec = x["rec"]
@@ -101,6 +102,16 @@ def _route_rejected(ctx, verdict, logname, hexes):
     more = verdict["nrejected"] - len(verdict["rejected"])
     if more > 0:
         ctx.violation("%d further rejected records in %s were not listed" % (more, logname), {"kind": "c03-overflow", "log": logname})
+
+
+SHAPE_PROBLEMS = []
+
+
+def _finish(ctx):
+    """Tooling problems (log shape) are exit 2 - unless a violation of the property is established, which is reported."""
+    if SHAPE_PROBLEMS:
+        _selftest_failed(ctx, "; ".join(SHAPE_PROBLEMS[:3]))
+    return ctx.finish()
 
 
 def _selftest_failed(ctx, msg):
@@ -380,7 +391,7 @@ def run(tier, replay):
         "the tokio copy of the request parser is run by the harness-tokio worker on a current-thread runtime over an always-ready scripted AsyncRead",
         "include directives in configuration inputs name files that do not exist (worker cwd is an empty directory)",
     ]
-    return ctx.finish()
+    return _finish(ctx)
 
 
 def _replay(ctx, pf, wd, replay):
@@ -416,4 +427,4 @@ def _replay(ctx, pf, wd, replay):
         _route_rejected(ctx, verdict, os.path.basename(lp), hexes)
     os.remove(lp)
     os.remove(cases_path)
-    return ctx.finish()
+    return _finish(ctx)
